@@ -20,6 +20,7 @@ import (
 func init() {
 	verifRegister("HarnessC01_PLog", HarnessC01_PLog)
 	verifRegister("HarnessC01_PLogDeep", HarnessC01_PLogDeep)
+	verifRegister("HarnessC01_PLogLong", HarnessC01_PLogLong)
 }
 
 func verifBadgerOpen() *badger.DB {
@@ -84,11 +85,24 @@ func plogObserve(res *PersistentLog, db *badger.DB, iface distsys.ArchetypeInter
 	verifReach("observe")
 }
 
-func plogRun(nsec, nops int) {
+func plogRun(nsec, nops, prefill int) {
 	db := verifBadgerOpen()
 	res := NewPersistentLog("p", db).(*PersistentLog)
 	iface := plogIface()
 	var committed []tla.Value
+	if prefill > 0 {
+		// a first committed section that appends prefill entries, so that the symbolic sections work on a longer log
+		var es []tla.Value
+		for j := 0; j < prefill; j++ {
+			es = append(es, tla.MakeNumber(verifNondetInt32("entry")))
+		}
+		_ = res.WriteValue(iface, plogCmd(logConcat, "entries", tla.MakeTuple(es...)))
+		if ch := res.Commit(iface); ch != nil {
+			<-ch
+		}
+		committed = es
+		plogObserve(res, db, iface, committed, "after a commit")
+	}
 	for sec := 0; sec < nsec; sec++ {
 		cur := append([]tla.Value{}, committed...)
 		n := 1 + verifChoose("nops", nops)
@@ -139,8 +153,9 @@ func plogRun(nsec, nops int) {
 	verifReach("end")
 }
 
-// bound on the log length (a pop from a list of 8 entries runs into a limitation of the engine's math/bits interpretation)
-const plogMaxLen = 6
+// bound on the log length
+const plogMaxLen = 12
 
-func HarnessC01_PLog()     { plogRun(2, 2) }
-func HarnessC01_PLogDeep() { plogRun(3, 2) }
+func HarnessC01_PLog()     { plogRun(2, 2, 0) }
+func HarnessC01_PLogLong() { plogRun(2, 2, 7) }
+func HarnessC01_PLogDeep() { plogRun(3, 2, 0) }
